@@ -34,7 +34,7 @@ SIZE = {"C12": 2000, "C11": 1000, "C10": 750, "C17": 400}
 # cases appended behind the first SIZE ones (so that those stay as recorded): constellations the first generator never builds -
 # a header column shared by two signals (`IO_out` is the expected column of the bidirectional IO *and* of an output or a declared
 # virtual signal that is itself called IO_out) with different widths; an input the header omits in front of listed ones
-EXTRA = {"C07": 80, "C06": 80, "C03": 60, "C14": 40, "C02": 40, "C05": 40, "C11": 300, "C13": 150, "C10": 40}
+EXTRA = {"C07": 80, "C06": 80, "C03": 60, "C14": 40, "C02": 40, "C05": 40, "C11": 300, "C13": 150, "C10": 40, "C12": 300, "C19": 80}
 # C11 extra cases: undamaged signal lists, but a `C` may stand in ANY column (an output's, a bidirectional signal's `_out`
 # column, a virtual signal's): the recorded verdict says which of these bind
 
@@ -321,6 +321,9 @@ class Gen:
         if not any(l and not l.startswith(("#", "let", "declare", "loop", "end", "while", "resetRandom")) and l != hdr for l in self.lines):
             self.lines.append(self.row([(c[1], c[2]) for c in cols], [], readable))
         nl = "\r\n" if f == "C19" and self.p(0.3) else "\n"
+        if f == "C19" and self.exotic:
+            # carriage returns that are not part of a CRLF pair are blank space (C20 lists them among the blanks), not line breaks
+            nl = r.choice(["\r\r\n", " \r\n", "\r \n", "\t\r\r\n", "\r\r\r\n"])
         text = nl.join(self.lines) + (nl if self.p(0.8) else "")
         return "\n".join(out) + "\n" + text
 
@@ -347,6 +350,29 @@ def damage_program(rnd, scen):
     else:
         toks = toks[:i]
     return head + "\nprogram\n" + "".join(toks)
+
+
+def damage_overlong(rnd, scen):
+    """C12: two neighbouring plain entries of a data row become ONE literal that does not fit in 64 bits (so the row is also
+    one entry short): must be rejected whatever way the lexer cuts the digits"""
+    head, prog = scen.split("\nprogram\n", 1)
+    lines = prog.split("\n")
+    cand = []
+    for li, l in enumerate(lines[1:], 1):
+        w = l.split(" ")
+        for k in range(len(w) - 1):
+            if re.fullmatch(r"[0-9][0-9a-fA-FxXb]*|[XZ]", w[k]) and re.fullmatch(r"[0-9][0-9a-fA-FxXb]*|[XZ]", w[k + 1]):
+                cand.append((li, k))
+    if not cand:
+        return damage_program(rnd, scen)
+    li, k = rnd.choice(cand)
+    w = lines[li].split(" ")
+    n = rnd.choice([1, 1, 2, 3])
+    lit = rnd.choice([str(rnd.randrange(10 ** (19 + n), 10 ** (20 + n))), "0x" + "".join(rnd.choice("0123456789abcdefABCDEF") for _ in range(16 + n)),
+                      "0b1" + "".join(rnd.choice("01") for _ in range(63 + n)), "07" + "".join(rnd.choice("01234567") for _ in range(21 + n))])
+    w[k:k + 2] = [lit]
+    lines[li] = " ".join(w)
+    return head + "\nprogram\n" + "\n".join(lines)
 
 
 def damage_signals(rnd, scen):
@@ -492,6 +518,9 @@ def generate(focus, n=None):
         rnd = random.Random(f"{focus}/{k}")
         if k >= base and focus == "C10":
             cases.append(many_x(rnd))
+            continue
+        if k >= base and focus == "C12":
+            cases.append(damage_overlong(rnd, Gen(rnd, rnd.choice(["C08", "C01", "C05", "C07"])).scenario()))
             continue
         if k >= base and focus == "C11":
             cases.append(Gen(rnd, rnd.choice(["C06", "C14", "C05"]), exotic=rnd.random() < 0.5, c_anywhere=True).scenario())
